@@ -6,11 +6,14 @@
 #include "shmem_allocator.h"
 
 using cm::Op;
-static std::vector<Op> alphabet(int nkeys){ std::vector<Op> ops; const char *keys[]={"a","b","c","d","e","f","g","h","i"};
-	for(int k=0;k<nkeys;k++) for(int d=0;d<2;d++){ Op o; o.k=Op::STORE; o.key=keys[k]; o.dl= d?-1:2; if(k%2==0&&d==1) o.trig.insert("t"); ops.push_back(o); }
+// key families: plain one-letter keys, or binary keys "k\0" + ('a'+i) + (16*(8-i)): an embedded NUL after a common first byte and the SAME PJW hash value for all of
+// them (('a'+i)*16 + 16*(8-i) is constant), so any two of them share a bucket at every table size and differ only after the NUL
+static std::vector<std::string> key_family(bool binary){ std::vector<std::string> k; for(int i=0;i<9;i++){ if(!binary) k.push_back(std::string(1,(char)('a'+i))); else { std::string s("k\0",2); s+=(char)('a'+i); s+=(char)(16*(8-i)); k.push_back(s); } } return k; }
+static std::vector<Op> alphabet(int nkeys,bool binary=false){ std::vector<Op> ops; std::vector<std::string> keys=key_family(binary);
+	for(int k=0;k<nkeys;k++) for(int d=0;d<2;d++){ Op o; o.k=Op::STORE; o.key=keys[k]; o.dl= d?-1:2; if(k%2==0&&d==1) o.trig.insert("t"); ops.push_back(o); } { Op o; o.k=Op::STORE; o.key=keys[0]; o.dl=-2; ops.push_back(o); } /* a store that is already expired: occupies a slot, is the preferred victim, replaces the old entry */
 	for(int k=0;k<nkeys;k++){ Op o; o.k=Op::FETCH; o.key=keys[k]; ops.push_back(o); }
-	{ Op o; o.k=Op::TICK; o.n=1; ops.push_back(o); o.n=3; ops.push_back(o); } { Op o; o.k=Op::REMOVE; o.key="a"; ops.push_back(o); } { Op o; o.k=Op::RISE; o.key="t"; ops.push_back(o); } { Op o; o.k=Op::STATS; ops.push_back(o); } return ops; }
-static cb::Config config(const std::string &backend,unsigned limit,int nkeys){ cb::Config c; c.backend=backend; c.limit=limit; c.ops=alphabet(nkeys); const char *keys[]={"a","b","c","d","e","f","g","h","i"}; for(int k=0;k<nkeys;k++) c.keys.push_back(keys[k]); c.label=backend+"/limit="+std::to_string(limit)+"/keys="+std::to_string(nkeys); c.shm=512*1024; return c; }
+	{ Op o; o.k=Op::TICK; o.n=1; ops.push_back(o); o.n=3; ops.push_back(o); } { Op o; o.k=Op::REMOVE; o.key=keys[0]; ops.push_back(o); } { Op o; o.k=Op::RISE; o.key="t"; ops.push_back(o); } { Op o; o.k=Op::STATS; ops.push_back(o); } return ops; }
+static cb::Config config(const std::string &backend,unsigned limit,int nkeys,bool binary=false){ cb::Config c; c.backend=backend; c.limit=limit; c.ops=alphabet(nkeys,binary); std::vector<std::string> keys=key_family(binary); for(int k=0;k<nkeys;k++) c.keys.push_back(keys[k]); c.label=backend+"/limit="+std::to_string(limit)+"/keys="+std::to_string(nkeys)+(binary?"/binary-keys":""); c.shm=512*1024; return c; }
 
 // memory clause: fill/empty cycles
 namespace cppcms { namespace impl { struct process_settings { static shmem_control *process_memory; }; } }
@@ -73,11 +76,11 @@ static void pressure_pass(int sh,int n,int depth){ booster::intrusive_ptr<cppcms
 	c->clear(); }
 
 int main(int argc,char **argv){ vf::init(argc,argv,"C08","model_checking"); bool th=vf::thorough();
-	std::vector<cb::Config> cfgs; const char *be[]={"thread_shared","process_shared"}; for(int b=0;b<2;b++) for(unsigned l=1;l<=(th?8u:3u);l++){ int nkeys= l<=3? (int)l+2 : (l<=5?(int)l+1:9); if(nkeys>9) nkeys=9; if(b==1&&!th&&l!=2) continue; cfgs.push_back(config(be[b],l,nkeys)); }
+	std::vector<cb::Config> cfgs; const char *be[]={"thread_shared","process_shared"}; for(int b=0;b<2;b++) for(unsigned l=1;l<=(th?8u:3u);l++){ int nkeys= l<=3? (int)l+2 : (l<=5?(int)l+1:9); if(nkeys>9) nkeys=9; if(b==1&&!th&&l!=2) continue; cfgs.push_back(config(be[b],l,nkeys)); } for(int b=0;b<2;b++) cfgs.push_back(config(be[b],b?3:2,b?5:4,true)); /* binary keys sharing one bucket */
 	if(!vf::C().replay_file.empty()){ std::ifstream f(vf::C().replay_file); std::stringstream ss; ss<<f.rdbuf(); std::string l=ss.str(); std::string label=vf::jfield(l,"config"); size_t p=l.find("\"history\":["); std::vector<int> h; if(p!=std::string::npos){ size_t e=l.find(']',p); h=vf::parse_choices(l.substr(p+11,e-p-11)); }
-		for(int b=0;b<2;b++) for(unsigned lim=1;lim<=8;lim++) for(int nk=2;nk<=9;nk++){ cb::Config c=config(be[b],lim,nk); if(c.label!=label) continue; cb::RunResult r=cb::run_history(c,h,true); for(size_t i=0;i<r.trace.size();i++) printf("  %s\n",r.trace[i].c_str()); printf("replay: %s\n",r.ok?"history conforms":r.what.c_str()); if(!r.ok) vf::violation(c.label+":"+r.sig,r.what,"\"config\":"+vf::jstr(label)); } return vf::finish(); }
+		for(int bin=0;bin<2;bin++) for(int b=0;b<2;b++) for(unsigned lim=1;lim<=8;lim++) for(int nk=2;nk<=9;nk++){ cb::Config c=config(be[b],lim,nk,bin!=0); if(c.label!=label) continue; cb::RunResult r=cb::run_history(c,h,true); for(size_t i=0;i<r.trace.size();i++) printf("  %s\n",r.trace[i].c_str()); printf("replay: %s\n",r.ok?"history conforms":r.what.c_str()); if(!r.ok) vf::violation(c.label+":"+r.sig,r.what,"\"config\":"+vf::jstr(label)); } return vf::finish(); }
 	int depth=th?7:5, nd=th?5:4; double t_budget=vf::C().budget_s*0.55;
-	vf::C().rule="states = canonical forms of the set-valued reference model (entries, deadlines relative to now, LRU order) reached by replaying histories on the real cache; alphabet: store(k, now+2 | no deadline [+ shared trigger]) for limit+2 keys, fetch(k), tick 1/3, remove(a), rise(t), stats; oracle: size <= limit after every history, every fetch/stats result admissible under 'expired first, then least recently stored-or-fetched' (any expired victim admissible), destructive audit of every key; memory clause: 28 fill/empty cycle scenarios on a 512 KiB process-shared segment with available() compared per cycle; memory-pressure eviction: from a nearly full 512 KiB segment (6 prologue variants: 23 entries of 14000 bytes, mixed deadlines, shuffled LRU, expired entries present) every sequence of <= 4 (5) operations {store fresh 14000|40000 bytes x 3 deadlines, overwrite, 2 fetches, tick}: live entries evicted by a store form a prefix of the LRU order, none while an expired entry is left";
+	vf::C().rule="states = canonical forms of the set-valued reference model (entries, deadlines relative to now, LRU order) reached by replaying histories on the real cache; alphabet: store(k, now+2 | no deadline [+ shared trigger]) for limit+2 keys (plain, and in two configurations binary keys with an embedded NUL and equal hash values), one already-expired store, fetch(k), tick 1/3, remove(a), rise(t), stats; oracle: size <= limit after every history, every fetch/stats result admissible under 'expired first, then least recently stored-or-fetched' (any expired victim admissible), destructive audit of every key; memory clause: 28 fill/empty cycle scenarios on a 512 KiB process-shared segment with available() compared per cycle; memory-pressure eviction: from a nearly full 512 KiB segment (6 prologue variants: 23 entries of 14000 bytes, mixed deadlines, shuffled LRU, expired entries present) every sequence of <= 4 (5) operations {store fresh 14000|40000 bytes x 3 deadlines, overwrite, 2 fetches, tick}: live entries evicted by a store form a prefix of the LRU order, none while an expired entry is left";
 	vf::assume("virtual clock via interposed time(); the victim among several expired entries is not specified (set-valued model)"); vf::assume("behaviour for values that do not fit the shared segment is outside the statement: only non-corruption and continued service are checked");
 	vf::parallel(cfgs.size(),16,[&](int i){ cb::Stats st; int dep= cfgs[i].limit<=4? depth : (th?5:depth); cb::bfs(cfgs[i],dep,st,[&](){ return vf::elapsed()>t_budget; }); vf::C().states+=st.states; vf::C().transitions+=st.transitions; vf::C().traces+=st.traces; vf::guard(("bfs_depth_completed:"+cfgs[i].label).c_str(),st.depth_done); if(st.fixpoint) vf::guard(("bfs_fixpoint:"+cfgs[i].label).c_str()); },th?1400:110);
 	{ std::vector<cb::Config> nc; nc.push_back(config("thread_shared",2,4)); nc.push_back(config("thread_shared",1,3)); if(th){ nc.push_back(config("thread_shared",3,5)); nc.push_back(config("process_shared",2,4)); }
